@@ -394,6 +394,16 @@ class Runner:
         if name == "sleep":
             detsim.coop_sleep(cmd[1])
             return None
+        if name == "poll_stopped":
+            # a caller that waits until the simulator *reports* a stable state
+            # and then issues its next command at once
+            n = 0
+            while self.sim.run_state.name not in ("STOPPED", "ENDED", "INITIALIZED",
+                                                  "NOT_INITIALIZED") and n < 100000:
+                detsim.coop_sleep(0.001)
+                n += 1
+            H.append(("polled", self.cmd_index, n))
+            return None
         if name == "drain":
             # start() until the replication has ended (bounded)
             for _ in range(cmd[1] if len(cmd) > 1 else 50):
@@ -534,6 +544,11 @@ class Runner:
                          step_cost=sc.get("step_cost_us", 0) * 1e-6,
                          max_steps=case.get("max_steps", 200000),
                          oversleep=oversleep, watch=self.watch)
+        if sc.get("stall"):
+            det.stall_rng = common.rng_for(sc.get("seed", 0), "stall")
+            det.stall_prob = sc["stall"]
+        if isinstance(det.schedule, detsim.SReplay):
+            det.replay_stalls = det.schedule.stalls
         if sc.get("clock_jumps"):
             det.clock_jumps = {int(k): v for k, v in sc["clock_jumps"].items()}
         self.last_state = (self.sim._run_state, self.sim._replication_state)
